@@ -258,6 +258,17 @@ def gen_folding():
                 t, e = (live, inner) if x == "1" else (inner, live)
                 out.append(P(d + DC, "r = %s ? %s : %s;" % (x, t, e), ("cfold6", x, inner, live)))
                 out.append(P(d + DC, "RdV = %s ? %s : %s; r = %s;" % (x, t, e, inner), ("cfold7", x, inner, live)))
+    # two folded conditionals in one behaviour whose dead arms are built from the same operand (what the first one leaves
+    # behind meets what the second one removes), with every shape of dead arm, and a live use before / between / after / never
+    DEAD2 = ["RsV", "(int64_t)RsV", "((RsV + 1) * 2)", "(RsV + RtV)", "-RsV", "clz32(RsV)", "(uint8_t)RsV", "(RsV ? 1 : 2)", "siV", "(int64_t)siV", "(siV + 1)"]
+    for d1 in DEAD2:
+        for d2 in DEAD2:
+            if ("siV" in d1) != ("siV" in d2):
+                continue
+            out.append(P(d, "ReV = 0 ? %s : 3; RddV = 1 ? 7 : %s;" % (d1, d2), ("cfold8", d1, d2, "none")))
+            out.append(P(d, "ReV = 0 ? %s : 3; RddV = 1 ? 7 : %s; r = %s;" % (d1, d2, "siV" if "siV" in d1 else "RsV"), ("cfold8", d1, d2, "after")))
+            out.append(P(d, "r = %s; ReV = 0 ? %s : 3; RddV = 1 ? 7 : %s;" % ("siV" if "siV" in d1 else "RsV", d1, d2), ("cfold8", d1, d2, "before")))
+            out.append(P(d, "ReV = 0 ? %s : 3; r = %s; RddV = 1 ? 7 : %s;" % (d1, "siV" if "siV" in d1 else "RsV", d2), ("cfold8", d1, d2, "between")))
     # folded unary operators on constants at the upper end of their type (the result has to be spelled as a C constant)
     for x in ["0xffffffff", "4294967295U", "0x80000000", "2147483648", "0xffffffffffffffff", "18446744073709551615U", "0x8000000000000000", "9223372036854775807"]:
         for u in ["-", "~"]:
@@ -482,7 +493,7 @@ STATIC_FINDINGS = [
     ("KF-const-cond-dead-arm", "sorts", r"identifier \w+ does not hold a pure|local \w+ is read but no path ever sets it", const_cond_dead_identifier),
     ("KF-const-cond-dead-arm", "wellformed", r"identifier '\w+' is not declared before use", const_cond_dead_identifier),
     ("KF-rw-operand-read-leak", "linearity", r"pure [A-Z][yzstuvw]{1,2} is initialised but never used", rw_operand_written),
-    ("KF-const-cond-dead-arm", "linearity", r"pure \w+ is initialised but never used \(leak\)|pure \w+ is consumed 2 times without DUP", const_cond_dead_operand),
+    ("KF-const-cond-dead-arm", "linearity", r"pure \w+ is initialised but never used \(leak\)|pure \w+ is consumed \d+ times without DUP", const_cond_dead_operand),
     ("KF-unary-fold-unreduced", "wellformed", r"an integer constant does not fit any C integer type", lambda src: re.search(r"[-~]\s*(0[xX][0-9a-fA-F]+|\d+)", src) is not None),
     ("KF-unused-value-statement-leak", "linearity", r"pure \w+ is initialised but never used \(leak\)", unused_pure_statement_leak),
 ]
